@@ -55,8 +55,36 @@ fn stmt(s: &Stmt) -> Value {
     }
 }
 
+struct MatchesArgs {
+    scrut: Expr,
+    pat: Pat,
+    guard: Option<Expr>,
+}
+
+impl syn::parse::Parse for MatchesArgs {
+    fn parse(input: syn::parse::ParseStream) -> syn::Result<Self> {
+        let scrut: Expr = input.parse()?;
+        input.parse::<Token![,]>()?;
+        let pat = Pat::parse_multi_with_leading_vert(input)?;
+        let guard = if input.peek(Token![if]) {
+            input.parse::<Token![if]>()?;
+            Some(input.parse::<Expr>()?)
+        } else {
+            None
+        };
+        let _ = input.parse::<Option<Token![,]>>();
+        Ok(MatchesArgs { scrut, pat, guard })
+    }
+}
+
 fn mac(m: &syn::Macro) -> Value {
     let name = toks(&m.path).replace(' ', "");
+    if name == "matches" {
+        if let Ok(ma) = m.parse_body::<MatchesArgs>() {
+            return json!({"k":"matches","line":line(m),"scrut":expr(&ma.scrut),"pat":pat(&ma.pat),
+                          "guard": ma.guard.as_ref().map(|g| expr(g))});
+        }
+    }
     let args: Option<Vec<Value>> = m
         .parse_body_with(Punctuated::<Expr, Token![,]>::parse_terminated)
         .ok()
@@ -151,8 +179,17 @@ fn main() {
                     }
                 }
                 Item::Impl(im) if im.trait_.is_none() || true => {
-                    let ty = toks(&im.self_ty).replace(' ', "");
-                    let tr = im.trait_.as_ref().map(|(_, p, _)| toks(p).replace(' ', ""));
+                    let mut ty = toks(&im.self_ty).replace(' ', "");
+                    if let Some(i) = ty.find('<') {
+                        ty.truncate(i); // RestrictedResolver<T> -> RestrictedResolver
+                    }
+                    let tr = im.trait_.as_ref().map(|(_, p, _)| {
+                        let mut t = toks(p).replace(' ', "");
+                        if let Some(i) = t.find('<') {
+                            t.truncate(i);
+                        }
+                        t
+                    });
                     for ii in &im.items {
                         if let syn::ImplItem::Fn(f) = ii {
                             let n = match &tr {
